@@ -111,3 +111,10 @@ NA['C04'] = ('no contract within reach can decide it: minimize_subcircuits needs
              '_PatternOperations.eval_pattern is proved under C01 (c01_extra), circuit_search clause families under C06, replace_subcircuit is bounded under C19. A bounded driver with stand-in shims exists (vlib/bounded/C04.py) but is not registered: it would be a different technique resting on a guessed cut enumerator.')
 NA['C20'] = ('no deductive obligation built: Kahn-style top_sort (multiset in-degree bookkeeping over users lists, generator) and the three-state work-list traversal with hooks need inductive invariants that were not completed; '
              'the top_sort contract is ASSUMED by the C01 proof of evaluate_full_circuit and exercised by the unregistered bounded driver vlib/bounded/C20.py (all multigraph DAGs up to 3 nodes + random, both directions, all hook combinations).')
+
+NA.pop('C20', None)
+claim('C20', 'other', 'contract-based deductive verification of Kahn-style top_sort in both directions (inductive loop invariants with ghost yielded set, counting function and prefix counts over users / operand lists; rule R2 for completeness); bounded stand-in for dfs/bfs/hooks/cycle check',
+      'Proved from the real generator source for an arbitrary well-formed circuit and both values of `inverse`: every yielded element is a gate, none is yielded twice, each is yielded strictly after all of its predecessors (operands, resp. users), '
+      'the work list never holds a gate twice, no KeyError/IndexError, CircuitIsCyclicalError only if no predecessor-free gate exists, and the completeness step (an unyielded gate has an unyielded predecessor), which rule R2 lifts to "every gate is yielded". '
+      'dfs, bfs, the hook discipline and check_circuit_has_no_cycles are bounded-only (all multigraph DAGs up to 3 nodes + random, all start sets, hooks that read the state map).',
+      T_ASSUME + 'background lemmas on finite counting; rule R2; work list modelled as a duplicate-free bag with arbitrary pop order (duplicate-freeness proved).', 'DESIGN.md §6 C20')
